@@ -113,7 +113,7 @@ VARIANTS = [
     V('c08-no-separator', 'C08', 'bad', 'R8.3', FO, "                if prev_ is not None and not prev_.match(T.Punctuation, '('):\n                    tlist.tokens.insert(tidx, _get_insert_token(token))\n                else:", "                if True:"),
     V('c08-no-resume-fix', 'C08', 'bad', 'R8.6', FO, "                    tidx -= 1\n                tlist.tokens.remove(token)", "                    pass\n                tlist.tokens.remove(token)", 'the defect fixed by 919bddc: the second of two adjacent comments survives'),
     V('c08-hint-direct-children', 'C08', 'bad', 'R8.6', FO, "if any(t.ttype in sql_hints for t in token.flatten()):", "if any(t.ttype in sql_hints for t in token.tokens):", 'the other half of 919bddc: a nested hint is lost'),
-    V('c10-stripws-no-border-pass', 'C10', 'bad', 'R10.9', FO, "                if token.is_whitespace and last_was_ws:\n                    token.value = ''\n                last_was_ws = (token.is_whitespace", "                last_was_ws = (token.is_whitespace", 'the defect fixed by 05f5255'),
+    V('c10-stripws-no-border-pass', 'C10', 'bad', 'R10.9', FO, "                if token.is_whitespace and last_was_ws:\n                    token.value = ''\n                elif token.is_keyword", "                if token.is_keyword", 'the defect fixed by 05f5255'),
     V('c10-stripws-first-child-blanked', 'C10', 'bad', 'R10.9', FO, "            if token.is_whitespace:\n                token.value = '' if last_was_ws else ' '\n            last_was_ws = token.is_whitespace\n", "            if token.is_whitespace:\n                token.value = '' if last_was_ws or token is tlist.tokens[0] else ' '\n            last_was_ws = token.is_whitespace\n", 'the defect fixed by 9dde7fa: the separator at the start of a nested list is removed'),
     V('c10-stripws-paren-minus2', 'C10', 'bad', 'R10.9', FO, "        cidx, _ = tlist.token_next_by(m=sql.Parenthesis.M_CLOSE)\n", "        cidx = len(tlist.tokens) - 1\n", 'the other half of 05f5255: ")" assumed to be the last child'),
     V('c15-accessor-no-guard', 'C15', 'bad', 'R15.6', S, "                try:\n                    if real_name:\n                        return token.get_real_name()\n                    return token.get_name()\n                except RecursionError as err:\n                    raise SQLParseError(\n                        'Maximum recursion depth exceeded') from err", "                if real_name:\n                    return token.get_real_name()\n                return token.get_name()", 'the defect fixed by a45b003'),
@@ -297,6 +297,11 @@ VARIANTS = [
     V('c13-cases-then-kept-in-condition', 'C13', 'bad', 'R13.9', S, "            elif token.match(T.Keyword, 'THEN'):\n                mode = VALUE\n", "            elif token.match(T.Keyword, 'THEN'):\n                ret[-1][0].append(token)\n                mode = VALUE\n                continue\n"),
     V('c07-case-close-endcase', 'C07', 'bad', 'R7.10', S, "    M_OPEN = T.Keyword, 'CASE'\n    M_CLOSE = T.Keyword, 'END'", "    M_OPEN = T.Keyword, 'CASE'\n    M_CLOSE = T.Keyword, ('END', 'END CASE')"),
     V('c20-parse-adds-keywords', 'C20', 'bad', 'R20.10', I, "    stack = engine.FilterStack()\n    stack.enable_grouping()\n", "    stack = engine.FilterStack()\n    stack.enable_grouping()\n    if encoding == 'mysql':\n        from sqlparse.lexer import Lexer\n        Lexer.get_default_instance().add_keywords({'STRAIGHT_JOIN': tokens.Keyword})\n"),
+    V('c10-multiword-ws-old', 'C10', 'bad', 'R10.9', FO, "                elif token.is_keyword or token.ttype in (\n                        T.Name.Builtin, T.Operator.Comparison):", "                elif False:", 'the defect fixed by 495e7f5'),
+    V('c06-collapse-every-token', 'C06', 'bad', 'R6.10', FO, "                elif token.is_keyword or token.ttype in (\n                        T.Name.Builtin, T.Operator.Comparison):", "                elif not token.is_whitespace:", 'quoted names, literals and comments lose their inner blanks'),
+    V('c06-collapse-upper', 'C06', 'bad', 'R6.10', FO, "                    token.value = ' '.join(head.split()) + (", "                    token.value = ' '.join(head.upper().split()) + (", 'a layout option changes the letter case of keywords'),
+    V('c06-collapse-tz-literal', 'C06', 'bad', 'R6.10', FO, "                    head, quote, literal = token.value.partition(\"'\")\n                    token.value = ' '.join(head.split()) + (\n                        ' ' + quote + literal if quote else '')", "                    token.value = ' '.join(token.value.split())", "the literal of AT TIME ZONE '..' is rewritten"),
+    V('c06-collapse-regex-ok', 'C06', 'ok', None, FO, "                    token.value = ' '.join(head.split()) + (\n                        ' ' + quote + literal if quote else '')", "                    token.value = ' '.join(head.split()) + (\n                        ' ' + quote + literal if quote != '' else '')"),
 ]
 
 WHOLE_FILE = {
